@@ -780,6 +780,11 @@ func writeTypeConversion(w *formatting.IndentedWriter, typeChange dsl.TypeChange
 			w.Indented(func() {
 				fmt.Fprintf(w, "%s = std::get<%d>(%s);\n", targetName, tc.TypeIndex, sourceName)
 			})
+			fmt.Fprintf(w, "} else {\n")
+			w.Indented(func() {
+				// a value of another case becomes the zero value, also when the target is a variable that the caller reuses or did not initialize
+				fmt.Fprintf(w, "%s = %s{};\n", targetName, common.TypeSyntax(tc.OldType()))
+			})
 			fmt.Fprintf(w, "}\n")
 		} else {
 			// Reading a Scalar into a Union
@@ -794,6 +799,11 @@ func writeTypeConversion(w *formatting.IndentedWriter, typeChange dsl.TypeChange
 			fmt.Fprintf(w, "if (%s.index() == %d) {\n", sourceName, tc.TypeIndex)
 			w.Indented(func() {
 				fmt.Fprintf(w, "%s = std::get<%d>(%s);\n", targetName, tc.TypeIndex, sourceName)
+			})
+			fmt.Fprintf(w, "} else {\n")
+			w.Indented(func() {
+				// null, or a value of another case: no value, also when the target is a variable that the caller reuses
+				fmt.Fprintf(w, "%s = %s{};\n", targetName, common.TypeSyntax(tc.OldType()))
 			})
 			fmt.Fprintf(w, "}\n")
 		} else {
